@@ -1,6 +1,7 @@
 /- Parser for the serialised configuration (`LAYX` lines written by harness/src/lay.rs). -/
 import KVerif.Drv.Tok
 import KVerif.Model.Layout
+import KVerif.Model.ChordsV2
 namespace KVerif.Drv.Cfg
 open KVerif.L KVerif.Drv
 
@@ -97,7 +98,26 @@ structure Case where
   dbg : Bool
   layout : Option Layout     -- none: the real parser rejected the configuration
   unsupported : Bool := false
+  chv2 : Option ChV2Cfg := none   -- the `defchordsv2` table, when configured
   hist : List HEv
+
+/-- `CHV2 minIdle nkeys (key nch (nk k… pending rb nd d… action)*)*` -/
+def chv2Cfg : P ChV2Cfg := do
+  expect "CHV2"
+  let minIdle ← num
+  let nkeys ← num
+  let mapping ← rep nkeys (do
+    let k ← num
+    let nch ← num
+    let chs ← rep nch (do
+      let nk ← num; let keys ← rep nk num
+      let pending ← num; let rb ← num
+      let nd ← num; let dis ← rep nd num
+      let a ← action
+      pure ({ action := a, keys, pending, disabledLayers := dis,
+              release := if rb == 0 then .onFirstRelease else .onLastRelease } : ChordV2))
+    pure (k, chs))
+  return { mapping, minIdle }
 
 def layoutCfg : P Layout := do
   expect "tv2"; let tv2 ← num
@@ -125,6 +145,9 @@ def case (tag : String) : P Case := do
     return { dbg := dbg == 1, layout := none, unsupported := true, hist := ← hist }
   | _ => do
     let l ← layoutCfg
-    return { dbg := dbg == 1, layout := some l, hist := ← hist }
+    let v2 ← match (← peek?) with
+      | some "CHV2" => do pure (some (← chv2Cfg))
+      | _ => pure none
+    return { dbg := dbg == 1, layout := some l, chv2 := v2, hist := ← hist }
 
 end KVerif.Drv.Cfg
